@@ -3,8 +3,9 @@
    the model: the model returns the list appended; that the previous contents are untouched and
    the count equals the number appended on the real crate is checked by H1 (vectors with 0-2
    previous elements and 0-3 spare places) and H2. *)
+From Coq Require Import String.
 From KV Require Import Base Chan Atomic.
-From KV.proofs Require Import Inv StepInv Fifo Drain LockProfile.
+From KV.proofs Require Import Inv StepInv Fifo Drain LockDiscipline.
 
 (* on an open channel: appends exactly the pending sequence (buffer, then every blocked or pending
    sender, oldest first), returns its length, leaves nothing behind, destroys / hands back nothing *)
@@ -27,9 +28,9 @@ Proof. exact drain_closed. Qed.
 
 (* it never blocks: one critical section, no wait on any signal (computed on the current source) *)
 Theorem c19_never_blocks :
-  forallb (fun fn => match Mem.skel_lookup fn Gen_Skel.lock_profiles with Some ls => negb (waits ls) | None => false end) nonblocking_fns = true /\
-  offenders = [].
-Proof. split; [exact nonblocking_never_wait|exact one_critical_section_per_entry_point]. Qed.
+  forallb (fun fn => match has_event "wait"%string fn with Some false => true | _ => false end) nonblocking_fns = true /\
+  undisciplined = [].
+Proof. split; [exact nonblocking_never_wait|exact lock_discipline_holds]. Qed.
 
 Print Assumptions c19_takes_everything_in_order_and_counts_it.
 Print Assumptions c19_releases_each_sender_with_success.
